@@ -139,7 +139,7 @@ def unstable_queries(cx):
     cx.check(okA and some_seen and none_seen, "maybe_term:above", "at/above the offset the term is entries[idx - offset].term, and None beyond the last unstable index (found %s)" % shown(hi))
 
 
-@obligation("VOTE.votes_cleared", ["C02", "C16"], floor=2, kind="must-pass-through",
+@obligation("VOTE.votes_cleared", ["C02", "C16", "C11"], floor=2, kind="must-pass-through",
             why="votes (or pre-votes) gathered in an earlier candidacy counted in a later one elect a leader without a quorum")
 def votes_cleared(cx):
     def clears_votes(fn):
